@@ -1,4 +1,5 @@
 """C16 - sequence numbers: requests cycle 1..191, commands 192..255, never 0."""
+import json
 import asyncio
 import itertools
 import threading
@@ -9,7 +10,7 @@ import vloop
 
 LEVEL = "proof"
 MANIFEST = dict(
-    text='Machine-checked Lean 4 proof, for every call sequence of any length and interleaving, that both counter implementations (translated statement-by-statement from the source on every run) hand out 1+k%191 / 192+k%64 (closed form), stay in range, are successors in their own cycle; that for ANY number of threads, any calls per thread and ANY scheduler interleaving the micro-operations of the threaded counter (acquire / snapshot / store / release, shape regenerated from the source) the numbers handed out are exactly those of one sequential caller (threads_serialise, by an inductive invariant; a snapshot taken outside the lock provably duplicates); and that every call site picks the right counter (decide over the regenerated call-site table). Tie: translator + full differential sweep of every reachable counter state against both real objects; wire clause checked on datagrams built by the real clients. Session 4: the wire clause drives every request-building site of both clients through MORE than one whole cycle of its counter on one connection (all 255 sequence values are seen on the wire): the sequence byte must be in the range of its verb, must be a number the connection counter handed out while that request was built (tap on the public method), and the content length of a verb must not depend on the sequence number.',
+    text='Machine-checked Lean 4 proof, for every call sequence of any length and interleaving, that both counter implementations (translated statement-by-statement from the source on every run) hand out 1+k%191 / 192+k%64 (closed form), stay in range, are successors in their own cycle; that for ANY number of threads, any calls per thread and ANY scheduler interleaving the micro-operations of the threaded counter (acquire / snapshot / store / release, shape regenerated from the source) the numbers handed out are exactly those of one sequential caller (threads_serialise, by an inductive invariant; a snapshot taken outside the lock provably duplicates); and that every call site picks the right counter (decide over the regenerated call-site table). Tie: translator + full differential sweep of every reachable counter state against both real objects; wire clause checked on datagrams built by the real clients. Session 4: the wire clause drives every request-building site of both clients through MORE than one whole cycle of its counter on one connection (all 255 sequence values are seen on the wire): the sequence byte must be in the range of its verb, must be a number the connection counter handed out while that request was built (tap on the public method), and the content length of a verb must not depend on the sequence number. Round 15: ONE spa object connected, written through and disconnected three times - every connection (UDP endpoint) numbers 1, 2, 3 .. and 192, 193 .. on the wire like the first.',
     note='Trusted: Lean kernel; axioms propext/Classical.choice/Quot.sound only; harness/translate.py+py2lean.py (cross-checked by the sweep); atomicity of threading.Lock; the abstraction of a lock region to one snapshot read + one write (the lock shape is extracted by the translator and cross-checked by pausing a real thread before every source line of the counter while a second real thread makes a call).',
     technique='Lean 4 induction over call sequences on source-translated definitions + decide over generated call-site table',
     design='5/C16',
@@ -483,6 +484,89 @@ def search_thread_schedules(ctx):
     ctx.cov["thread_pause_points"] = sorted(f"line+{l}{' (B blocked on the lock)' if b else ''}" for l, b in points)
 
 
+def run_reconnected_object(n_connections=3):
+    """ONE `GeckoAsyncSpa` object connected, used and disconnected several times through its public connect / disconnect (the real
+    `_connect` wiring, real simulator): per connection (= per UDP endpoint) the sequence bytes on the wire, by kind, in order of first
+    appearance"""
+    import fakenet
+    from geckolib.async_spa import GeckoAsyncSpa
+    from geckolib.async_spa_descriptor import GeckoAsyncSpaDescriptor
+    from geckolib.async_tasks import AsyncTasks
+    from props import c10
+    out = []
+
+    async def body(loop):
+        sim = fakenet.make_sim(c10.SNAP)
+        net = fakenet.Network(loop, sim, phases=[], seed=1)
+        loop.network = net
+
+        async def on_event(*a, **k):
+            pass
+        tm = AsyncTasks()
+        async with tm:
+            spa = GeckoAsyncSpa(b"IOSclient-uuid", GeckoAsyncSpaDescriptor(c10.IDENT.encode(), "Spa", fakenet.SIM_ADDR), tm, on_event)
+            for conn in range(n_connections):
+                n_tr = len(loop.transports)
+                await asyncio.wait_for(spa.connect(), 300)
+                await asyncio.sleep(1.0)
+                rec = {"connection": conn + 1, "connected": spa.is_connected}
+                if spa.is_connected:
+                    tags = [t for t, a in spa.accessors.items() if a.read_write is not None and a.type == "Enum" and a.items
+                            and len([x for x in a.items if x]) >= 2 and t.startswith("Ud")][:2]
+                    for t in tags:
+                        a = spa.accessors[t]
+                        labs = [x for x in a.items if x]
+                        try:
+                            await asyncio.wait_for(a.async_set_value(labs[0] if a.value != labs[0] else labs[1]), 30)
+                        except Exception as e:  # noqa
+                            rec.setdefault("raised", []).append(f"{type(e).__name__}: {e}")
+                    await asyncio.sleep(0.5)
+                await asyncio.wait_for(spa.disconnect(), 60)
+                await asyncio.sleep(0.5)
+                prot, cmd = [], []
+                for tr in loop.transports[n_tr:]:
+                    for _t, data, _addr in tr.sent:
+                        if b"<DATAS>" not in data:
+                            continue
+                        verb, seq = _seq_byte(data)
+                        if verb == "APING":           # pings carry no number
+                            continue
+                        lst = cmd if verb == "SPACK" else prot
+                        if not lst or lst[-1] != [verb, seq]:
+                            lst.append([verb, seq])
+                rec["endpoints"] = len(loop.transports) - n_tr
+                rec["protocol"], rec["command"] = prot[:8], cmd[:4]
+                out.append(rec)
+                if not rec["connected"]:
+                    break
+    vloop.run_virtual(body, stable=True)
+    return out
+
+
+def search_reconnected_object(ctx):
+    """'independently per connection': a connection's numbers do not depend on what the connections before it used - the same spa
+    object connected again starts over like the first time"""
+    try:
+        recs = run_reconnected_object()
+    except Exception as e:  # noqa
+        ctx.violation("reconnected-object:raised", {"kind": "reconnected-object"}, "the same spa object connects again", f"{type(e).__name__}: {e}")
+        return
+    first = recs[0] if recs else None
+    for r in recs:
+        ctx.count("evaluations")
+        ctx.hist("reconnected_object", "connected" if r["connected"] else "not-connected")
+        bad = (not r["connected"] or r.get("raised") or not r["protocol"] or not r["command"]
+               or r["protocol"][0][1] != 1 or r["command"][0][1] != 192
+               or any(b[1] != _succ(False, a[1]) for a, b in zip(r["protocol"], r["protocol"][1:]))
+               or any(b[1] != _succ(True, a[1]) for a, b in zip(r["command"], r["command"][1:]))
+               or [r["protocol"], r["command"]] != [first["protocol"], first["command"]])
+        if bad:
+            ctx.violation("reconnected-object:numbers-carried-over", {"kind": "reconnected-object", "connection": r["connection"]},
+                          "every connection of the object numbers its requests 1, 2, ... and its pack commands 192, 193, ... like the first one: " + json.dumps([first["protocol"], first["command"]]),
+                          r)
+            return
+
+
 def run(ctx):
     st = translate.run(["SeqCounter", "Skeletons"])
     ctx.cov["translator"] = st
@@ -497,6 +581,7 @@ def run(ctx):
     search_wire(ctx)
     search_retry_numbers(ctx)
     search_thread_schedules(ctx)
+    search_reconnected_object(ctx)
     if not ctx.quick:
         search_threads(ctx)
     ctx.cov["distinct_nontrivial"] = ctx.cov.get("distinct_counter_states_visited", 0)
@@ -510,6 +595,9 @@ def run(ctx):
 def replay(inp):
     from common import Ctx
     ctx = Ctx("C16", "quick", 0)
+    if inp.get("kind") == "reconnected-object":
+        search_reconnected_object(ctx)
+        return bool(ctx.violations), ctx.violations[0]["observed"] if ctx.violations else "every connection starts over"
     if inp.get("kind") == "retry-numbers":
         search_retry_numbers(ctx)
         return bool(ctx.violations), ctx.violations[0]["observed"] if ctx.violations else "successors"
